@@ -46,7 +46,11 @@ RPC = ["src/node/node_rpc.go:*", "src/node/node.go:Node.checkSuspend", "src/node
        "src/node/state/state.go:*"]
 STORE = ["src/hashgraph/inmem_store.go:*", "src/hashgraph/badger_store.go:*", "src/hashgraph/caches.go:ParticipantEventsCache.*",
          "src/common/lru.go:*", "src/common/rolling_index.go:*", "src/common/rolling_index_map.go:*"]
-WIRE = ["src/hashgraph/event.go:*", HG + "ReadWireInfo", HG + "SetWireInfo", NC + "toWire", NC + "sync"]
+WIRE = ["src/hashgraph/event.go:*", HG + "ReadWireInfo", HG + "SetWireInfo", NC + "toWire", NC + "sync",
+        "src/hashgraph/frame.go:*", "src/hashgraph/root.go:*", "src/hashgraph/block.go:BlockBody.*", "src/hashgraph/block.go:Block.Hash",
+        "src/hashgraph/block.go:Block.Marshal", "src/hashgraph/block.go:Block.Unmarshal", "src/hashgraph/roundInfo.go:RoundInfo.Marshal",
+        "src/hashgraph/roundInfo.go:RoundInfo.Unmarshal", "src/peers/peer_set.go:PeerSet.Hash", "src/peers/peer_set.go:PeerSet.Marshal",
+        "src/peers/peer_set.go:PeerSet.Unmarshal", "src/crypto/hash.go:*"]
 PROXY = ["src/proxy/socket/app/*.go:*", "src/proxy/socket/babble/*.go:*", "src/proxy/inmem/inmem_proxy.go:*"]
 MEMBERSHIP = [NC + "processAcceptedInternalTransactions", NC + "commit", "src/hashgraph/caches.go:PeerSetCache.*",
               "src/peers/peer_set.go:PeerSet.WithNewPeer", "src/peers/peer_set.go:PeerSet.WithRemovedPeer", "src/peers/peer_set.go:NewPeerSet",
@@ -59,14 +63,14 @@ SOURCES = {
                    HG + "Reset", NC + "commit"],
     "C03": CORE,
     "C04": CORE,
-    "C05": POOL + SYNC[:2],
+    "C05": POOL + SYNC[:2] + ["src/proxy/inmem/inmem_proxy.go:InmemProxy.SubmitTx", "src/node/node.go:Node.addTransaction"],
     "C06": SYNC + POOL + [],
     "C07": ADMISSION + ["src/hashgraph/inmem_store.go:InmemStore.SetEvent", "src/hashgraph/inmem_store.go:InmemStore.addParticipant",
                         "src/hashgraph/caches.go:ParticipantEventsCache.*", "src/common/rolling_index.go:*"],
     "C08": DECODE + RPC[:1] + ADMISSION[:4] + FF[:4] + SIGS[:1] + [NC + "sync"],
     "C09": SIGS + COMMIT,
     "C10": MEMBERSHIP,
-    "C11": [HG + "Bootstrap", HG + "initEventCoordinates", HG + "updateAncestorFirstDescendant", NC + "bootstrap", NC + "setHeadAndSeq",
+    "C11": ADMISSION[:4] + [HG + "Bootstrap", HG + "initEventCoordinates", HG + "updateAncestorFirstDescendant", NC + "bootstrap", NC + "setHeadAndSeq",
             "src/hashgraph/badger_store.go:*"],
     "C12": FF,
     "C13": FF + CORE,
